@@ -378,7 +378,9 @@ Proof.
   apply filter_ext. intros g. rewrite (nmem_perm g _ _ Hc), (nmem_perm g _ _ L2). reflexivity.
 Qed.
 
-(* the hypothesis pick_respects cannot be dropped: the desperate phase emits its genes in the order of
-   the pairs, so a rule that looks at the ORDER of marker_gene_name_list can tell the two orders apart *)
-Definition pick_peeking : pick_fn := fun _ ch =>
-  match ch with 0 :: _ => Some 3 | _ => Some 4 end.
+Theorem rules_respect :
+  pick_respects pick_first_max /\ (forall sorter, pick_respects (pick_pop sorter)) /\
+  (forall nd trace, pick_respects (pick_of_trace nd trace)).
+Proof. split; [exact pick_first_max_respects|]. split; [exact pick_pop_respects | exact pick_of_trace_respects]. Qed.
+
+Definition wres_chosen (r : wres) : option (list nat) := option_map (fun s => chosen s) (wres_opt r).
